@@ -89,6 +89,9 @@ def run(ck: Checker):
     ck.rule('C17.MIN', 'get_by_raw_truth_table_model folded over every small model with a stub store: defined entries are never altered, every completion is tried, and a stored circuit of minimal size is returned (None only if no completion is stored)')
     ck.rule('C17.KEY', 'add_circuit and get_by_raw_truth_table derive the key from the normalised table through the same function; keys are injective on tables; decoding/encoding go through the codec of C16')
 
+    ck.rule('C17.DB', 'an in-memory CircuitsDatabase folded end to end (add_circuit of every normal-form two-input table, then get_by_raw_truth_table of every table with 1-2 (3) outputs through normalisation, key, codec and denormalisation): the answer computes exactly the requested table in the requested order, None exactly when the normal form is not stored')
+    from .. import eval_fold
+    eval_fold.fold_database(ck, 'C17.DB')
     NI = RepoClass(nm, nm.cls('NormalizationInfo'))
 
     # ---- NORM (folded) ----
@@ -157,17 +160,18 @@ def run(ck: Checker):
             probs.append(f'{_s(ntt)} renormalises to {_s(info2._d["truth_table"])}')
     ck.check(not probs, 'C17.NORM', nm, nm.func('NormalizationInfo._normalize'), 'normalisation is idempotent', '; '.join(probs[:3]), construct='NormalizationInfo normal form idempotent')
 
-    # ---- MIRROR (structural) ----
-    fn = nm.func('NormalizationInfo._normalize')
-    steps = [call_name(s.value) for s in fn.body if isinstance(s, ast.Assign) and isinstance(s.value, ast.Call)]
-    dn = nm.func('NormalizationInfo.denormalize')
-    undo = [call_name(s.value) for s in dn.body if isinstance(s, ast.Expr) and isinstance(s.value, ast.Call)]
-    pair = {'_normalize_outputs': '_denormalize_outputs', '_sort_outputs': '_unsort_outputs', '_delete_duplicate_outputs': '_undo_outputs_deletion'}
-    ck.check(len(steps) == 3 and undo == [pair.get(s) for s in reversed(steps)], 'C17.MIRROR', nm, dn, 'denormalize undoes the steps of _normalize in reverse order',
-             f'normalise steps {steps}, undo steps {undo}', construct='denormalize step order')
-    guard = [s for s in dn.body if isinstance(s, ast.If) and isinstance(s.body[-1], ast.Raise)]
-    ck.check(len(guard) == 1 and all(x in norm(guard[0].test) for x in ('self.negations is None', 'self.permutation is None', 'self.mapping is None')), 'C17.MIRROR', nm, dn,
-             'denormalize refuses uninitialised parameters', 'guard missing', construct='denormalize parameter guard')
+    with ck.soft('C17.NORM / C17.DB (normalise and denormalise folded over every small table)'):
+        # ---- MIRROR (structural) ----
+        fn = nm.func('NormalizationInfo._normalize')
+        steps = [call_name(s.value) for s in fn.body if isinstance(s, ast.Assign) and isinstance(s.value, ast.Call)]
+        dn = nm.func('NormalizationInfo.denormalize')
+        undo = [call_name(s.value) for s in dn.body if isinstance(s, ast.Expr) and isinstance(s.value, ast.Call)]
+        pair = {'_normalize_outputs': '_denormalize_outputs', '_sort_outputs': '_unsort_outputs', '_delete_duplicate_outputs': '_undo_outputs_deletion'}
+        ck.check(len(steps) == 3 and undo == [pair.get(s) for s in reversed(steps)], 'C17.MIRROR', nm, dn, 'denormalize undoes the steps of _normalize in reverse order',
+                 f'normalise steps {steps}, undo steps {undo}', construct='denormalize step order')
+        guard = [s for s in dn.body if isinstance(s, ast.If) and isinstance(s.body[-1], ast.Raise)]
+        ck.check(len(guard) == 1 and all(x in norm(guard[0].test) for x in ('self.negations is None', 'self.permutation is None', 'self.mapping is None')), 'C17.MIRROR', nm, dn,
+                 'denormalize refuses uninitialised parameters', 'guard missing', construct='denormalize parameter guard')
 
     # ---- MIN (folded with a stub store) ----
     gm = db.func('CircuitsDatabase.get_by_raw_truth_table_model')
@@ -224,24 +228,25 @@ def run(ck: Checker):
     ck.check(not probs, 'C17.MIN', db, gm, f'lookup of a model with don\'t-cares tries exactly its completions and returns a smallest stored circuit ({n_models} models x 2 stub stores)',
              '; '.join(probs[:3]), construct='get_by_raw_truth_table_model arg-min over completions')
     excl = [c for c in calls_in(gm, 'gates_number')]
-    ck.check(len(excl) == 1 and norm(excl[0].args[0]) == gm.args.args[2].arg, 'C17.MIN', db, gm, 'sizes are measured with the caller\'s exclusion list', 'gates_number not called with exclusion_list', construct='get_by_raw_truth_table_model size measure')
+    ck.decide(True if (len(excl) == 1 and excl[0].args and norm(excl[0].args[0]) == gm.args.args[2].arg) else None, 'C17.MIN', db, gm, 'sizes are measured with the caller\'s exclusion list', 'gates_number not called with exclusion_list', construct='get_by_raw_truth_table_model size measure', covered_by='C17.MIN fold with a stub store')
 
-    # ---- KEY ----
-    gb = db.func('CircuitsDatabase.get_by_raw_truth_table')
-    src = norm(gb)
-    ok = 'normalization = NormalizationInfo(truth_table)' in src and 'label = _truth_table_to_label(normalization.truth_table)' in src.replace('normalized_truth_table = normalization.truth_table\n', '').replace('_truth_table_to_label(normalized_truth_table)', '_truth_table_to_label(normalization.truth_table)') \
-        and 'circuit = self.get_by_label(label)' in src and 'normalization.denormalize(circuit)' in src
-    rets = [n for n in walk_no_nested(gb) if isinstance(n, ast.Return)]
-    ok = ok and [norm(r.value) for r in rets] == ['None', 'circuit']
-    ck.check(ok, 'C17.KEY', db, gb, 'lookup: normalise, key by the normal form, decode, denormalise that same circuit, return it', 'shape changed', construct='get_by_raw_truth_table')
-    ad = db.func('CircuitsDatabase.add_circuit')
-    src = norm(ad)
-    ok = 'truth_table = circuit.get_truth_table()' in src and 'normalization = NormalizationInfo(truth_table)' in src and 'if normalized_truth_table != truth_table:' in src \
-        and 'label = _truth_table_to_label(normalized_truth_table)' in src and 'self._dict[label] = encoded_circuit' in src and 'encoded_circuit = encode_circuit(circuit)' in src \
-        and 'if label in self._dict.keys():' in src
-    ck.check(ok, 'C17.KEY', db, ad, 'add: only normalised circuits are stored, under the key of their own truth table, never overwriting', 'shape changed', construct='add_circuit')
-    gl = db.func('CircuitsDatabase.get_by_label')
-    ck.check('encoded_circuit = self._dict.get(label)' in norm(gl) and 'return decode_circuit(encoded_circuit)' in norm(gl), 'C17.KEY', db, gl, 'stored bytes are decoded by the codec', 'shape changed', construct='get_by_label')
+    with ck.soft('C17.DB (database folded end to end)'):
+        # ---- KEY ----
+        gb = db.func('CircuitsDatabase.get_by_raw_truth_table')
+        src = norm(gb)
+        ok = 'normalization = NormalizationInfo(truth_table)' in src and 'label = _truth_table_to_label(normalization.truth_table)' in src.replace('normalized_truth_table = normalization.truth_table\n', '').replace('_truth_table_to_label(normalized_truth_table)', '_truth_table_to_label(normalization.truth_table)') \
+            and 'circuit = self.get_by_label(label)' in src and 'normalization.denormalize(circuit)' in src
+        rets = [n for n in walk_no_nested(gb) if isinstance(n, ast.Return)]
+        ok = ok and [norm(r.value) for r in rets] == ['None', 'circuit']
+        ck.check(ok, 'C17.KEY', db, gb, 'lookup: normalise, key by the normal form, decode, denormalise that same circuit, return it', 'shape changed', construct='get_by_raw_truth_table')
+        ad = db.func('CircuitsDatabase.add_circuit')
+        src = norm(ad)
+        ok = 'truth_table = circuit.get_truth_table()' in src and 'normalization = NormalizationInfo(truth_table)' in src and 'if normalized_truth_table != truth_table:' in src \
+            and 'label = _truth_table_to_label(normalized_truth_table)' in src and 'self._dict[label] = encoded_circuit' in src and 'encoded_circuit = encode_circuit(circuit)' in src \
+            and 'if label in self._dict.keys():' in src
+        ck.check(ok, 'C17.KEY', db, ad, 'add: only normalised circuits are stored, under the key of their own truth table, never overwriting', 'shape changed', construct='add_circuit')
+        gl = db.func('CircuitsDatabase.get_by_label')
+        ck.check('encoded_circuit = self._dict.get(label)' in norm(gl) and 'return decode_circuit(encoded_circuit)' in norm(gl), 'C17.KEY', db, gl, 'stored bytes are decoded by the codec', 'shape changed', construct='get_by_label')
     lab = RepoFunc(it, db, db.func('_truth_table_to_label'))
     seen = {}
     dup = []
